@@ -434,6 +434,8 @@ def compute_line(case, order, d):
     """driver request for the same case, with the implementation's recorded order and threshold"""
     mv = d.params['min_value']
     f = Fraction(mv.item() if hasattr(mv, 'item') else mv) * (2 ** case['fb'])
+    if case.get('minv', 'min') != 'min':
+        f = Fraction(case['minv'][0], case['minv'][1])     # the threshold that was asked for
     vals = ','.join('nan' if x is None else str(x) for x in case['k'])
     return ('compute shape=%s periodic=%s adj=%s fb=%d vals=%s minv=%d/%d crit=%s order=%s'
             % (','.join(str(s) for s in case['shape']),
